@@ -129,7 +129,7 @@ def balanced(dp):
     return d == 0
 
 # ------------------------------------------------------------------ component generator
-NAME_POOL = ["a", "b", "c", "d", "t", "x", "y", "toe", "dom1", "B2", "s-1", "q_r", "in", "out", "m", "g7", "Hx", "Uy", "N", "S"]
+NAME_POOL = ["a", "b", "c", "d", "t", "x", "y", "toe", "dom1", "B2", "s-1", "q_r", "in", "out", "m", "g7", "Hx", "Uy", "N", "S", "5p", "3x_1"]
 
 def parts_len(parts, wild=0):
     return sum(wild if p[0] == "?" else p[0] for p in parts)
@@ -959,16 +959,16 @@ class SysGen:
         self.includes = []
         self.counter = 0
 
-    def new_comp(self, d):
+    def new_comp(self, d, name=None):
         rng = self.rng
         self.counter += 1
-        if rng.random() < 0.35:
+        if name is None and rng.random() < 0.35:
             t = rng.choice(param_templates())
             name = "%s_%d" % (t["name"], self.counter)
             prog = {"decl": [name] + t["prog"]["decl"][1:], "body": t["prog"]["body"]}
             item = {"kind": "comp", "name": name, "params": t["params"], "prog": prog, "ports_fn": t["ports"], "nin": t["nin"], "dir": d}
         else:
-            name = "G%d" % self.counter
+            name = name or "G%d" % self.counter
             for _ in range(20):
                 prog = sat_component(rng, name=name, allow_zero=rng.random() < 0.3, nstmts=rng.choice([3, 5, 8]))
                 dd = den_src(prog, "", 0)
@@ -1012,7 +1012,15 @@ class SysGen:
                 t = self.new_sys(sub_dir[0], level - 1)
             else:
                 sub_dir = self.place(d)
-                t = self.new_comp(sub_dir[0])
+                # now and then a component gets the base name of a component that lives in another directory (both imported by
+                # their bare names, each from its own directory): a lookup must not be shared between importing directories
+                reuse = None
+                if sub_dir == (d, "") and rng.random() < 0.15:
+                    cands = sorted({n for (dd, n), it in self.items.items() if it["kind"] == "comp" and not it["params"] and n.startswith("G")
+                                    and dd != d and dd not in ("inc1", "inc2")
+                                    and not any(n2 == n and (d2 == d or d2 in ("inc1", "inc2")) for (d2, n2) in self.items)})
+                    if cands: reuse = rng.choice(cands)
+                t = self.new_comp(sub_dir[0], name=reuse)
             alias = t["name"] if rng.random() < 0.7 else "A%d" % k
             imp_path = sub_dir[1] + t["name"]
             if (imp_path, alias) not in imports and not any(a == alias for _, a in imports):
